@@ -13,6 +13,9 @@ mod filter;
 mod opening_hours;
 mod utils;
 
+#[cfg(oh_verif)]
+pub mod verif_hooks;
+
 #[cfg(test)]
 mod tests;
 
